@@ -230,20 +230,16 @@ def write_import_file(dirpath: str, op: dict) -> str:
 
 
 def make_callback(op: dict):
+    """the conflict callback: what it does is a function of the POSITION of the entry it is called for.
+    The position is read off the shim: every entry reached so far issued exactly one look-up."""
     spec = op.get("cb")
     if spec is None:
         return None
-    entries = op["entries"]
-    seen: dict = {}
 
     def on_conflict(hostname, port, old, new):
-        trip = (hostname, port, new)
-        j = seen.get(trip, 0)
-        seen[trip] = j + 1
-        idx = [i for i, e in enumerate(entries)
-               if not e.get("defect") and e.get("host") == hostname and e.get("port") == port and (e.get("fpraw") or fp_str(e["fp"])) == new]
-        i = idx[j] if j < len(idx) else (idx[-1] if idx else 0)
-        c = spec[i] if i < len(spec) else "s"
+        _, shim = instrument()
+        i = sum(1 for _, t in shim.script if t[0] in ("S", "Q")) - 1
+        c = spec[i] if 0 <= i < len(spec) else "s"
         if c == "r":
             raise CbBoom("conflict callback raised")
         return c == "u"
